@@ -439,6 +439,57 @@ func ruleFinalize(c *Ctx) *RuleResult {
 			r.fail("mark-order-not-restamped:"+tn, p.Pos(f.Pos()), fmt.Sprintf("luagc.(*%s).Mark does not assign a new mark order on every path with non-zero flags: re-marking a value (a second setmetatable) would keep its old place, so finalisers run in an order that differs from the other pool implementation and from 'reverse order of marking'", tn))
 		}
 	}
+	// (f') the clone pool keeps a clone of each marked value, and the clone is what its
+	// finaliser is later run on (it snapshots the metatable): every Mark refreshes it, or a
+	// value marked again (a second setmetatable with another __gc) is finalised with the
+	// old metatable under this pool and with the new one under the other
+	if f := p.Func("runtime/internal/luagc", "(*ClonePool).Mark"); f != nil {
+		var clones []ssa.Instruction
+		forEachInstr(f, func(ins ssa.Instruction) {
+			st, ok := ins.(*ssa.Store)
+			if !ok {
+				return
+			}
+			for w := range backSliceAllocs(st.Val, false) {
+				if cl, ok := w.(ssa.CallInstruction); ok {
+					c := cl.Common()
+					if (c.Method != nil && c.Method.Name() == "Clone") || (c.StaticCallee() != nil && c.StaticCallee().Name() == "Clone") {
+						clones = append(clones, ins)
+					}
+				}
+			}
+		})
+		okAll := len(clones) > 0
+		gcm := newGuardCtx(f)
+		forEachInstr(f, func(ins ssa.Instruction) {
+			ret, ok := ins.(*ssa.Return)
+			if !ok || (f.Recover != nil && ret.Block() == f.Recover) {
+				return
+			}
+			// returns on the flags == 0 branch (un-marking) are exempt
+			for _, ge := range gcm.MustEdges(ret.Block()) {
+				if rel, ok := ge.Relation(); ok && rel.Op.String() == "==" {
+					if k, isK := constInt(rel.B); isK && k == 0 && rel.A == f.Params[len(f.Params)-1] {
+						return
+					}
+				}
+			}
+			dom := false
+			for _, st := range clones {
+				if instrDominates(st, ret) {
+					dom = true
+				}
+			}
+			if !dom {
+				okAll = false
+			}
+		})
+		if okAll {
+			r.ok("(f') luagc.(*ClonePool).Mark refreshes the clone on every mark")
+		} else {
+			r.fail("clone-not-refreshed-on-mark", p.Pos(f.Pos()), "luagc.(*ClonePool).Mark does not store a fresh clone of the value on every path: the clone carries the metatable the finaliser will be looked up in, so a table given a second metatable with another __gc is finalised with the old one in the default build and with the new one under -tags safepool")
+		}
+	}
 	checkPool("(*ClonePool).ExtractAllMarkedFinalize", fin, true)
 	checkPool("(*ClonePool).ExtractAllMarkedRelease", rel, false)
 	// (h) PopContext releases the child's pool before anything that can terminate a
